@@ -122,9 +122,9 @@ pub fn scene_strategy(max_tris: usize) -> BoxedStrategy<Scene> {
             let far = (near * ratio).max(ulp_up(near));
             let aspect = (r - l) as f32 / (b - t) as f32;
             let p = ViewParams { ortho, focal, near, far, aspect };
-            (Just(((bw, bh), [l, t, r, b], p.clone())), soup(p, max_tris), (0u8..3, 0u8..6, 0u8..6), target_kind(true), cfg_any(), prop_oneof![6 => Just(0.0f32), 1 => 0.0f32..2.0, 1 => Just(f32::INFINITY)])
+            (Just(((bw, bh), [l, t, r, b], p.clone())), soup(p, max_tris), (0u8..3, 0u8..6, 0u8..6, 0u8..8, 0u8..3), target_kind(true), cfg_any(), prop_oneof![6 => Just(0.0f32), 1 => 0.0f32..2.0, 1 => Just(f32::INFINITY)])
         })
-        .prop_map(|(((bw, bh), vp, p), tris, (door, fx, fy), target, cfg, bg)| {
+        .prop_map(|(((bw, bh), vp, p), tris, (door, fx, fy, sw, am), target, cfg, bg)| {
             let proj = if p.ortho {
                 Proj::Orthographic { lbn: xs([-p.near * 2.0, -p.near * 1.5, p.near]), rtf: xs([p.near * 2.0, p.near * 1.5, p.far]) }
             } else {
@@ -132,7 +132,7 @@ pub fn scene_strategy(max_tris: usize) -> BoxedStrategy<Scene> {
             };
             let attrs = tris.iter().enumerate().map(|(i, _)| xs([i as f32, i as f32 + 0.25, i as f32 + 0.5])).collect();
             if door == 2 {
-                Scene { bw, bh, vp, tris: tris.iter().map(|t| t.map(|v| xs([v[0], v[1], v[2], 1.0]))).collect(), attrs, door: Door::Camera, target, proj: Some(proj), bg_depth: X(bg), cfg, shader_mode: 0, shared_verts: false, flip: [false, false] }
+                Scene { bw, bh, vp, tris: tris.iter().map(|t| t.map(|v| xs([v[0], v[1], v[2], 1.0]))).collect(), attrs, door: Door::Camera, target, proj: Some(proj), bg_depth: X(bg), cfg, shader_mode: 0, shared_verts: false, flip: [false, false], swap_axes: false, attr_mode: 0 }
             } else {
                 // the library's own projection matrix applied by hand
                 let m = if p.ortho {
@@ -141,7 +141,7 @@ pub fn scene_strategy(max_tris: usize) -> BoxedStrategy<Scene> {
                     perspective(p.focal, p.aspect, p.near..p.far)
                 };
                 let clip = tris.iter().map(|t| t.map(|v| xs(m.apply(&pt3(v[0], v[1], v[2])).0))).collect();
-                Scene { bw, bh, vp, tris: clip, attrs, door: if door == 0 { Door::Render } else { Door::Batch }, target, proj: Some(proj), bg_depth: X(bg), cfg, shader_mode: 0, shared_verts: false, flip: [fx == 0, fy == 0] }
+                Scene { bw, bh, vp, tris: clip, attrs, door: if door == 0 { Door::Render } else { Door::Batch }, target, proj: Some(proj), bg_depth: X(bg), cfg, shader_mode: 0, shared_verts: false, flip: [fx == 0, fy == 0], swap_axes: sw == 0, attr_mode: am }
             }
         })
         .boxed()
@@ -167,11 +167,11 @@ pub fn grid_scene(max_tris: usize) -> BoxedStrategy<Scene> {
             let proj = Proj::Orthographic { lbn: xs([-1.0, -1.0, 1.0]), rtf: xs([1.0, 1.0, 3.0]) };
             let attrs = tris.iter().enumerate().map(|(i, _)| xs([i as f32, i as f32 + 0.25, i as f32 + 0.5])).collect();
             if door == 2 {
-                Scene { bw, bh, vp: [0, 0, bw, bh], tris: tris.iter().map(|t| t.map(|v| xs([v[0], v[1], v[2], 1.0]))).collect(), attrs, door: Door::Camera, target, proj: Some(proj), bg_depth: X(0.0), cfg, shader_mode: 0, shared_verts: false, flip: [false, false] }
+                Scene { bw, bh, vp: [0, 0, bw, bh], tris: tris.iter().map(|t| t.map(|v| xs([v[0], v[1], v[2], 1.0]))).collect(), attrs, door: Door::Camera, target, proj: Some(proj), bg_depth: X(0.0), cfg, shader_mode: 0, shared_verts: false, flip: [false, false], swap_axes: false, attr_mode: 0 }
             } else {
                 let m = orthographic(pt3(-1.0, -1.0, 1.0), pt3(1.0, 1.0, 3.0));
                 let clip = tris.iter().map(|t| t.map(|v| xs(m.apply(&pt3(v[0], v[1], v[2])).0))).collect();
-                Scene { bw, bh, vp: [0, 0, bw, bh], tris: clip, attrs, door: if door == 0 { Door::Render } else { Door::Batch }, target, proj: Some(proj), bg_depth: X(0.0), cfg, shader_mode: 0, shared_verts: false, flip: [fx == 0, fy == 0] }
+                Scene { bw, bh, vp: [0, 0, bw, bh], tris: clip, attrs, door: if door == 0 { Door::Render } else { Door::Batch }, target, proj: Some(proj), bg_depth: X(0.0), cfg, shader_mode: 0, shared_verts: false, flip: [fx == 0, fy == 0], swap_axes: false, attr_mode: 0 }
             }
         })
         .boxed()
@@ -198,11 +198,11 @@ pub fn coplanar_scene() -> BoxedStrategy<Scene> {
             let proj = Proj::Perspective { focal: X(focal), near: X(near), far: X(far) };
             let attrs = tris.iter().enumerate().map(|(i, _)| xs([i as f32; 3])).collect();
             if door == 2 {
-                Scene { bw, bh, vp: [0, 0, bw, bh], tris: tris.iter().map(|t| t.map(|v| xs([v[0], v[1], v[2], 1.0]))).collect(), attrs, door: Door::Camera, target, proj: Some(proj), bg_depth: X(0.0), cfg, shader_mode: 0, shared_verts: false, flip: [false, false] }
+                Scene { bw, bh, vp: [0, 0, bw, bh], tris: tris.iter().map(|t| t.map(|v| xs([v[0], v[1], v[2], 1.0]))).collect(), attrs, door: Door::Camera, target, proj: Some(proj), bg_depth: X(0.0), cfg, shader_mode: 0, shared_verts: false, flip: [false, false], swap_axes: false, attr_mode: 0 }
             } else {
                 let m = perspective(focal, aspect, near..far);
                 let clip = tris.iter().map(|t| t.map(|v| xs(m.apply(&pt3(v[0], v[1], v[2])).0))).collect();
-                Scene { bw, bh, vp: [0, 0, bw, bh], tris: clip, attrs, door: if door == 0 { Door::Render } else { Door::Batch }, target, proj: Some(proj), bg_depth: X(0.0), cfg, shader_mode: 0, shared_verts: false, flip: [false, false] }
+                Scene { bw, bh, vp: [0, 0, bw, bh], tris: clip, attrs, door: if door == 0 { Door::Render } else { Door::Batch }, target, proj: Some(proj), bg_depth: X(0.0), cfg, shader_mode: 0, shared_verts: false, flip: [false, false], swap_axes: false, attr_mode: 0 }
             }
         })
         .boxed()
